@@ -245,6 +245,8 @@ def describe(item):
         return dict(family='slotattrs', slat=item[1], opcode=['ATTR_SET', 'ATTR_ADD', 'PUSH_SLOT_ATTR', 'IATTR_SET', 'PUSH_ISLOT_ATTR', 'IATTR_ADD'][item[2]], subindex=item[3], just_levels=item[4], num_user=item[5], where=item[6])
     if item[0] == 'growth':
         return dict(family='growth', inserts_per_glyph=item[1], late_pass=['none', 'insert', 'delete'][item[2]], second_substitution_pass=item[3], ijust_equals_ipos=item[4])
+    if item[0] == 'stalemap':
+        return dict(family='stalemap', first_rule=['a b > x _', 'a b > _ x', 'a b c > x b _', 'a b c > x _ _', 'b > x _ / a _'][item[1]], second_rule_length=item[2], attaching_item=item[3], attach_to_offset=item[4], second_rule_in=['same pass', 'next substitution pass', 'positioning pass'][item[5]])
     if item[0] == 'classmap':
         return dict(family='classmap', classes=[CLASS_CATALOG[c] for c in item[1]], nlinear=item[2], opcode=('PUT_GLYPH' if item[4] < 0 else 'PUT_SUBS') + ('' if item[3] else '_8BIT_OBS'), in_class=item[4], out_class=item[5])
     if item[0] == 'manyrules':
@@ -263,6 +265,7 @@ def build(item):
     if item[0] == 'slotattr': return font_for_slotattr(*item[1:])
     if item[0] == 'growth': return font_for_growth(item[1], item[2], item[3], item[4])
     if item[0] == 'classmap': return font_for_classmap(*item[1:])
+    if item[0] == 'stalemap': return font_for_stalemap(*item[1:])
     return font_for_twopass(item[1], item[2], 0, 0, item[3])
 
 
@@ -326,6 +329,35 @@ def enum_deep(tier):
         for atoms in itertools.product(spos, repeat=5): yield ('action', (2, 0, 1, 'pos'), atoms, 0)
 
 
+def enum_stalemap(tier):
+    """Slot references that leave the rule's slot map: a first rule of length 2..3 that deletes one of its slots (a LONGER finite-state run whose map entries
+    outlive it), then a rule of length 1..2 on the glyph the first rule wrote whose attach.to names the slot k items away, k = -3..4 (before the map, inside
+    it, its look-ahead entry, one and two past it); same pass or the next pass (substitution or positioning)."""
+    for a_kind in range(5):
+        for b_len in (1, 2):
+            for b_pos in range(b_len):
+                for k in range(-3, 5):
+                    for where in range(3):
+                        yield ('stalemap', a_kind, b_len, b_pos, k, where)
+
+
+def font_for_stalemap(a_kind, b_len, b_pos, k, where):
+    F = base_font(); ab = {2, 3}; anyg = {2, 3, 5, 6}
+    a_rule = [Rule(0, [ab, ab], A('PUT_GLYPH', 0, 0, 'NEXT', 'DELETE', 'NEXT', 'RET_ZERO')),                     # a b > x _
+              Rule(0, [ab, ab], A('DELETE', 'NEXT', 'PUT_GLYPH', 0, 0, 'NEXT', 'RET_ZERO')),                     # a b > _ x
+              Rule(0, [ab, ab, ab], A('PUT_GLYPH', 0, 0, 'NEXT', 'NEXT', 'DELETE', 'NEXT', 'RET_ZERO')),         # a b c > x b _
+              Rule(0, [ab, ab, ab], A('PUT_GLYPH', 0, 0, 'NEXT', 'DELETE', 'NEXT', 'DELETE', 'NEXT', 'RET_ZERO')),   # a b c > x _ _
+              Rule(1, [ab, ab, ab], A('PUT_GLYPH', 0, 0, 'NEXT', 'DELETE', 'NEXT', 'RET_ZERO'))][a_kind]         # b > x _ / a _  (pre-context)
+    code = b''
+    for q in range(b_len): code += (att(k) if q == b_pos else b'') + A('NEXT')
+    b_rule = Rule(0, [{5}] + [anyg] * (b_len - 1), code + A('RET_ZERO'))
+    if where == 0: passes = [dict(maxloop=3, rules=[a_rule, b_rule]), fixed_attach_pass()]; ipos = 1
+    elif where == 1: passes = [dict(maxloop=3, rules=[a_rule]), dict(maxloop=3, rules=[b_rule]), fixed_attach_pass()]; ipos = 2
+    else: passes = [dict(maxloop=3, rules=[a_rule]), dict(maxloop=3, rules=[b_rule])]; ipos = 1
+    F['silf'] = dict(version=3, passes=passes, classes=CLASSES, nlinear=NLINEAR, iSubst=0, iPos=ipos, numUser=1, maxPre=1, maxPost=3)
+    return F
+
+
 CLASS_CATALOG = [[], [5], [5, 6], [2, 3], [2, 3, 4]]          # empty, [x], [x y], [a b], [a b c]
 
 
@@ -351,7 +383,7 @@ def font_for_classmap(cls, nlin, wide, inp, out):
     return F
 
 
-ENUMS = dict(classmap=enum_classmap, slotattrs=enum_slotattrs, deep=enum_deep, action=enum_action, constraint=enum_constraint, twopass=enum_twopass, manyrules=enum_manyrules, growth=enum_growth)
+ENUMS = dict(stalemap=enum_stalemap, classmap=enum_classmap, slotattrs=enum_slotattrs, deep=enum_deep, action=enum_action, constraint=enum_constraint, twopass=enum_twopass, manyrules=enum_manyrules, growth=enum_growth)
 
 
 def main():
